@@ -306,10 +306,17 @@ Definition outsideZ (d : dist R) (k : Z) : Prop :=
   | _ => False
   end.
 
+Lemma zcomb_loop_nonneg : forall i m j acc, (0 <= m)%Z -> (0 < j)%Z -> (0 <= acc)%Z -> (0 <= zcomb_loop i m j acc)%Z.
+Proof.
+  induction i as [|i IH]; intros m j acc Hm Hj Ha; simpl; [assumption|].
+  apply IH; try lia. apply Z.div_pos; [|assumption]. apply Z.mul_nonneg_nonneg; lia.
+Qed.
+
 Lemma zcomb_nonneg : forall n k, (0 <= zcomb n k)%Z.
 Proof.
-  intros. unfold zcomb. apply Z.div_pos; [pose proof (zfact_pos (Z.to_nat n)); lia|].
-  apply Z.mul_pos_pos; apply zfact_pos.
+  intros n k. unfold zcomb. destruct ((k <? 0) || (n <? k))%Z eqn:E; [lia|].
+  apply orb_false_iff in E. destruct E as [E1 E2]. apply Z.ltb_ge in E1, E2.
+  apply zcomb_loop_nonneg; lia.
 Qed.
 
 Theorem prob_total_nonneg_zero_outside : forall d k,
